@@ -84,7 +84,8 @@ def defects(draw, design):
   kinds = ["none", "two_blocks", "blk_part_vs_whole", "overlap_slices", "blk_vs_net", "no_driver", "conn_loop",
            "read_child_wire", "write_child_wire", "write_own_inport", "write_child_outport", "child_out_to_own_in",
            "loopback_inside", "two_levels", "op_eq_update", "op_ilshift_update", "op_eq_ff", "op_imatmul_ff",
-           "ff_slice", "ff_field"]
+           "ff_slice", "ff_field", "op_second_eq_update", "op_second_ilshift_update", "op_second_imatmul_ff",
+           "op_second_eq_ff"]
   kind = draw(st.sampled_from(kinds))
   if kind == "none": return None
   cns = sorted(design["classes"])
@@ -263,6 +264,14 @@ def defects(draw, design):
   elif kind == "op_ilshift_update": d["raw_groups"].append(blk([f"s.opw <<= 1"])); d["expect"] = [UB]
   elif kind == "op_eq_ff": d["raw_groups"].append(blk([f"s.opw = Bits{w}(1)"], "@update_ff")); d["expect"] = [UF]
   elif kind == "op_imatmul_ff": d["raw_groups"].append(blk([f"s.opw @= 1"], "@update_ff")); d["expect"] = [UF]
+  elif kind == "op_second_eq_update":
+    d["raw_groups"].append(blk([f"s.opw @= 0", "if s.reset:", f"  s.opw = Bits{w}(1)"])); d["expect"] = [UB]; d["nontrivial"] = True
+  elif kind == "op_second_ilshift_update":
+    d["raw_groups"].append(blk([f"s.opw @= 0", "if s.reset:", f"  s.opw <<= 1"])); d["expect"] = [UB]; d["nontrivial"] = True
+  elif kind == "op_second_imatmul_ff":
+    d["raw_groups"].append(blk([f"s.opw <<= 1", "if s.reset:", f"  s.opw @= 0"], "@update_ff")); d["expect"] = [UF]; d["nontrivial"] = True
+  elif kind == "op_second_eq_ff":
+    d["raw_groups"].append(blk([f"s.opw <<= 1", "if s.reset:", f"  s.opw = Bits{w}(0)"], "@update_ff")); d["expect"] = [UF]; d["nontrivial"] = True
   elif kind == "ff_slice": d["raw_groups"].append(blk([f"s.opw[0:1] <<= 1"], "@update_ff")); d["expect"] = [UN]
   elif kind == "ff_field":
     d["raw_decl"] = ["s.opst = Wire( BadOpStruct )"]
